@@ -41,6 +41,60 @@ CLAIMS["C20"] = dict(
     note=COMMON_NOTE + " serde's own data-model plumbing and concrete formats are outside the model (an in-memory format is used). That the table realises the reference map is C01's subject.",
     technique="machine-checked proof in Coq + bit-exact correspondence")
 
+TIE = (" Tie: generated operation histories run on the real collections through the cfg-guarded dump hooks; after EVERY step the implementation's "
+       "own pre-state is injected into the extracted model step and post-state, return value and drop/allocator events are compared bit for bit "
+       "(level C), every dumped state is checked with the extracted wf_check (level B), results are judged by the reference acceptor (level A).")
+CLAIMS["C01"] = dict(
+    text="Coq theorems (Properties/C01.v): every step of the model of HashMap/HashSet (insert, get*, remove*, entry family, retain, extract_if, drain, extend, reserve/shrink, clear, iteration) on ANY state satisfying the full invariant WF (any tombstone pattern, any size, any total hasher incl. constant and tag-colliding ones, both scanners) returns exactly what the association-list reference AssocSpec returns and leaves the abstraction relation AbsRel intact (map_step_refines); lifted to every history by induction (run_refines_map / run_refines_set); insert keeps the first-inserted key object." + TIE,
+    note=COMMON_NOTE + " OpSetInsert on a table holding map values with a differing stamp is excluded by the theorem's op_pre (a model artifact: sets and maps share one model; see DESIGN.md). HashTable is C06's subject.",
+    technique="machine-checked proof in Coq (refinement to an abstract map, induction over histories) + bit-exact correspondence")
+CLAIMS["C02"] = dict(
+    text="Coq theorems (Properties/C02.v): the model's unsafe primitives are CHECKED (a read of an uninitialised or out-of-range bucket, a control-byte index outside the block, a write to the static singleton, a probe that does not terminate, a free with a foreign layout all evaluate to Fail); map_step_safe proves for every operation, every SafeWF state owning its block (TOwn) and EVERY hasher -- lawful or not, panicking or not -- that no such Fail occurs (only capacity overflow / refused allocation remain) and SafeWF + TOwn hold afterwards; by induction for every history (run_safe, run_var_safe: hasher changing at every step); len is exact." + TIE + " The harness allocator adds red zones, poisoning, layout and alignment checks for element sizes 0,1,2,24,32,200 and alignment 64; iterators/drains/entries leaked with mem::forget.",
+    note=COMMON_NOTE + " PARTIAL: Coq cannot exhibit undefined behaviour of compiled Rust (aliasing/provenance rules, validity of reads, the SSE2 intrinsics); what is proved is the index / initialisation / ownership discipline of the model, tied bit-exactly to the code.",
+    technique="machine-checked proof in Coq (invariant by induction, checked primitives never fire) + bit-exact correspondence + instrumented allocator")
+CLAIMS["C03"] = dict(
+    text="Coq theorems (Properties/C03.v) on the RawTable model with explicit events: remove moves the element out exactly once; clear and drop run each stored element's destructor exactly once in bucket order; drop returns the block exactly once with the layout it was requested with (alloc/free pairing, singleton owns nothing); reserve/rehash/resize only move elements (multiset preserved), request at most one block and free the old one with its own layout; shrink never drops." + TIE + " Every key and value object carries a serial number in a registry: after every step each object is stored, held by the caller, or dropped exactly once; leaks and double drops at END.",
+    note=COMMON_NOTE + " PARTIAL: the accounting of K and V objects that are passed in but not stored (duplicate key of insert on a present key, default of or_insert on an occupied entry) is outside the model's event vocabulary and decided by the harness registry only.",
+    technique="machine-checked proof in Coq (event-level ownership accounting) + bit-exact event correspondence + object registry")
+CLAIMS["C04"] = dict(
+    text="Coq theorem (Properties/C04.v): for every operation, every SafeWF state and every hasher that may panic at ANY call (option-valued hasher, arbitrary per step), the model step returns a state satisfying SafeWF and owning its block, whether it completed or unwound (map_step_safe with panicking callbacks, incl. the rehash_in_place unwind guard generated from the source: rehash_guard_unconditional)." + TIE + " A third to a half of the operations are preceded by a fault arming (k-th Hash / Eq / Drop / Clone / predicate call panics, allocator refuses); after catch_unwind the dump must satisfy the full wf_check, contents must be explainable from pre-state and arguments, registry: no double drop, leaks only after destructor panics. Found and fixed: F1 (rehash guard skipped for no-drop types), F3 (clone_from hasher Clone panic) -- replays kept as corpus.",
+    note=COMMON_NOTE + " PARTIAL: the theorem covers panics of the hasher and of destructors; Eq / Clone / predicate panics and the lookup-reachability part of WF after an unwound in-place rehash are decided by the correspondence and wf_check on generated histories, not by a theorem.",
+    technique="machine-checked proof in Coq (invariant preserved on unwinding paths) + fault-injection correspondence")
+CLAIMS["C05"] = dict(
+    text="Coq theorems (Properties/C05.v): with an ARBITRARY hasher that may answer differently at every call (and panic), every operation of every history keeps SafeWF and block ownership, never reaches a checked-primitive failure, terminates (fuel never exhausted), and len() equals the number of elements iteration yields (run_var_safe, run_len_exact)." + TIE + " Histories with call-dependent Hash and/or Eq implementations (results depend on a call counter); judged for safety: SafeWF, len = iteration count, each stored object yielded once, registry and allocator checks.",
+    note=COMMON_NOTE + " PARTIAL: inconsistent Eq is exercised by the harness only (the model's key equality is fixed); inconsistent Hash is fully quantified in the theorem.",
+    technique="machine-checked proof in Coq (invariant independent of Hash laws) + correspondence with lawless Hash/Eq")
+CLAIMS["C08"] = dict(
+    text="Coq theorems (Properties/C08.v): capacity >= len on every SafeWF table; with_capacity(n) and reserve(n) guarantee n further insertions fit; an insertion while growth_left > 0 performs no allocator event and keeps the bucket count (no_alloc_while_room); shrink_to(m) keeps all elements, never grows the block, and yields the bucket count of a fresh with_capacity(max(len, m)) or frees everything; clear keeps the allocation. Arithmetic (capacity_to_buckets etc.) is generated from raw/mod.rs on every run." + TIE + " Capacity oracles (K-FAIL) evaluate these contracts on the implementation's own dumps after every step for element sizes 0..200.",
+    note=COMMON_NOTE, technique="machine-checked proof in Coq over source-generated arithmetic + bit-exact correspondence + capacity oracles")
+CLAIMS["C10"] = dict(
+    text="Coq theorems (Properties/C10.v): for every WF state, every predicate given as an arbitrary key set, every mutation through &mut and every early-drop point n, retain / extract_if / drain on the model (iterating with a RawIter WHILE erasing, as the code does) produce exactly the reference result: survivors = selected set with values bumped once, yielded elements are exactly the removed ones, unvisited elements stay, drain leaves an empty valid map keeping its allocation (map_step_refines_covered)." + TIE,
+    note=COMMON_NOTE, technique="machine-checked proof in Coq (refinement) + bit-exact correspondence")
+CLAIMS["C11"] = dict(
+    text="Coq theorems (Properties/C11.v): RawTable::clone of ANY SafeWF table yields a valid table owning a fresh block with identical control bytes/counters whose every bucket holds the clone of the source's bucket (a panicking Clone frees the fresh block, nothing else); clone_from into a target in ANY valid state (empty, smaller, equal, larger, tombstones) drops every old element once, replaces the block exactly when the bucket counts differ, and yields the clone (on a panic: an empty valid table); == on iteration-order lists is exactly 'same keys with equal values', symmetric, and invariant under permutation of either side (hence layout/capacity/history/hasher-independent); a clone compares equal to its source." + TIE + " Two-map scripts: clone, clone_from into every target class, swap, ==, differently salted hashers; fresh serial numbers (no shared object), the other map's dump unchanged by later steps.",
+    note=COMMON_NOTE + " Independence of the two Rust tables (no shared buckets) is a harness-level check: model tables are values.",
+    technique="machine-checked proof in Coq + bit-exact correspondence + object registry")
+CLAIMS["C12"] = dict(
+    text="Coq theorems (Properties/C12.v): try_reserve on any SafeWF table with any request (0 .. 2^64-1) and any allocator answer returns Ok with room for the request, or CapacityOverflow exactly when the arithmetic generated from raw/mod.rs overflows / exceeds isize::MAX, or AllocError carrying the layout that was refused; on every error the table is returned UNCHANGED (t' = t, no events)." + TIE + " Requests at the overflow boundaries for element sizes 0,1,24,200 with a refusing allocator; R-FAIL oracle compares the error kind and layout with the extracted arithmetic.",
+    note=COMMON_NOTE, technique="machine-checked proof in Coq over source-generated arithmetic + bit-exact correspondence")
+CLAIMS["C13"] = dict(
+    text="Coq theorems (Properties/C13.v): for EVERY insert/remove history whose live size never exceeds L (no reserve), starting from an empty table, the table is valid and its bucket count is at most max(16, 5(L+1)) (Bounded: a table of half the size could not hold 2(L+1) elements; allocation_size bounded accordingly), for an arbitrary hasher -- tombstones are reclaimed by rehash_in_place instead of growing (churn_bounded); every operation terminates (fuel never exhausted, map_step_safe)." + TIE + " Churn scripts (300-600 steps, live sizes 1..50, all hash plans) with the G-FAIL oracle: bucket count / allocation_size never exceed the proved bound.",
+    note=COMMON_NOTE + " Running time (amortised O(1)) is not modelled; termination and space are.",
+    technique="machine-checked proof in Coq (invariant over histories) + correspondence with bound oracle")
+CLAIMS["C14"] = dict(
+    text="Coq theorems (Properties/C14.v): the entry API of the model (entry().or_insert / insert / remove / and_modify().or_insert / dropping an entry unused) returns and leaves exactly what the reference map does, on every WF state and hasher (instances of map_step_refines); a vacant entry dropped unused leaves the contents unchanged (it may only have reserved)." + TIE,
+    note=COMMON_NOTE + " PARTIAL: raw_entry / rustc_entry / entry_ref variants are not exercised separately by the harness (entry_ref shares the code path; raw_entry is feature-gated).",
+    technique="machine-checked proof in Coq (refinement) + bit-exact correspondence")
+
+CLAIMS["C06"] = dict(
+    text="Coq theorems (Properties/C06.v): every step of the model of HashTable (find, find_mut, find_entry+remove, remove followed by re-insertion through the VacantEntry, entry insert / or_insert, insert_unique, retain, extract_if, drain, clear, reserve, shrink, get_many_mut, iter, iter_hash, len ...) on ANY WF state, for ANY total assignment of 64-bit hashes to elements (collisions in position bits, tag bits or both; duplicate elements) is accepted by the multiset reference MultisetSpec: a lookup misses only if no stored element of that hash satisfies the closure, hits return stored elements, removed elements are gone, len counts duplicates, iter_hash(h) yields a sub-multiset (nothing twice) and leaves no element of hash h un-yielded; lifted to every history by induction (trun_refines_from); safety (SafeWF/TOwn) for arbitrary unlawful closures and hashes (table_step_safe)." + TIE + " Element sizes 0,1,2,24,32,200, alignment 64.",
+    note=COMMON_NOTE + " Side conditions (top_pre), both shown necessary by vm_compute counterexamples in Proofs/TableStepRefine.v: the closure of remove-and-reinsert must only accept elements of the queried hash (caller error otherwise: re-inserting under a foreign hash); values are u64.",
+    technique="machine-checked proof in Coq (refinement to a multiset, induction over histories) + bit-exact correspondence")
+CLAIMS["C15"] = dict(
+    text="Coq theorems (Properties/C15.v) on the model of RawTable::get_many_mut (get_many_mut_pointers + pairwise duplicate check; HashMap::get_many_mut / get_many_key_value_mut and HashTable::get_many_mut all go through it): for ANY SafeWF table, ANY number of requests and ARBITRARY closures (incl. unlawful ones matching several entries) a returning call hands out pairwise distinct buckets (NoDup), result k is None exactly when request k found nothing and otherwise the stored element of its own bucket, the write lands in exactly that bucket and nothing else changes; the call panics EXACTLY when two requests resolve to the same bucket, leaving the table unchanged." + TIE + " The harness compares the addresses of the returned &mut references; a dedicated probe covers zero-sized elements (found and fixed: F2, spurious 'duplicate keys found' for distinct zero-sized entries).",
+    note=COMMON_NOTE + " PARTIAL: that two distinct Rust references do not alias is modelled as distinct bucket indices; the pointer-level argument (Bucket::ptr distinct per bucket, also for zero-sized T) is checked by the harness on addresses, not proved.",
+    technique="machine-checked proof in Coq + bit-exact correspondence + address comparison in the harness")
+
 REASON_PENDING = "check under construction in this round (model/theorems exist or are being written; not yet registered)"
 
 def main():
